@@ -34,11 +34,17 @@ MANIFEST = {
 
 
 def ids_of(u):
-    """Block ids (opaque to liskbft). Inputs recorded before ids existed get ids distinct by branch and position."""
-    ic = u.get("idsC") if u.get("idsC") is not None and len(u.get("idsC")) == len(u["common"]) else [i + 1 for i in range(len(u["common"]))]
-    ia = u.get("idsA") if u.get("idsA") is not None and len(u.get("idsA")) == len(u["a"]) else [1000000 + i for i in range(len(u["a"]))]
-    ib = u.get("idsB") if u.get("idsB") is not None and len(u.get("idsB")) == len(u["b"]) else [2000000 + i for i in range(len(u["b"]))]
-    return ic, ia, ib
+    """Block ids (opaque to liskbft). Inputs recorded before ids existed (no id lists at all) get ids distinct by branch and
+    position; id lists that are present but do not match the block lists are an error (never silently replaced)."""
+    out = []
+    for key, blocks, base in (("idsC", u["common"], 1), ("idsA", u["a"], 1000000), ("idsB", u["b"], 2000000)):
+        ids = u.get(key)
+        if ids is None or (len(ids) == 0 and len(blocks) > 0 and not any(u.get(k) for k in ("idsC", "idsA", "idsB"))):
+            ids = [base + i for i in range(len(blocks))]
+        if len(ids) != len(blocks):
+            raise ValueError("C01 case: %s has %d ids for %d blocks" % (key, len(ids), len(blocks)))
+        out.append(ids)
+    return tuple(out)
 
 
 def uni_term(u):
@@ -52,12 +58,17 @@ def uni_term(u):
 KEYS = {20: "c01:low-precommit-threshold", 21: "c01:fork-dependent-validator-change", 22: "c01:conflicting-finality"}
 
 
-def evaluate(ck, recs, tag="uni"):
+def evaluate(ck, recs, tag="uni", ncorpus=None):
     res = ck.coq_eval(IMPORTS, "uni_case", "check_uni", [uni_term(u) for u in recs], shard=12, tag=tag)
     if res is None:
         return
-    for u, code in zip(recs, res):
+    seen_known = set()
+    for idx, (u, code) in enumerate(zip(recs, res)):
         ck.count()
+        is_random = ncorpus is not None and idx >= ncorpus
+        if is_random and code in KEYS:
+            k = "random_universes_reaching_class_%d" % code
+            ck.extra[k] = ck.extra.get(k, 0) + 1
         nc = len(u["common"])
         fa = u["obsA"][-1]["heights"][1] if u["obsA"] else u["gh"]
         fb = u["obsB"][-1]["heights"][1] if u["obsB"] else u["gh"]
@@ -84,7 +95,10 @@ def evaluate(ck, recs, tag="uni"):
             continue
         inp = {k: u[k] for k in ("k", "batch", "gh", "init", "common", "a", "b")}
         inp["idsC"], inp["idsA"], inp["idsB"] = ids_of(u)
+        if code in KEYS and code != 22 and is_random and KEYS[code] in seen_known:
+            continue  # one replayable instance per known class is recorded; the others are counted above
         if code in KEYS:
+            seen_known.add(KEYS[code])
             f = dict(kind="history", key=KEYS[code], case=inp, observed={"finalizedA": fa, "finalizedB": fb},
                      what="two views of the real liskbft module finalize conflicting blocks (heights %d and %d, fork after %d) with "
                           "< 1/3 Byzantine weight" % (fa, fb, u["gh"] + nc),
@@ -122,7 +136,13 @@ def run(ck):
     if r is None:
         return
     recs += r
-    evaluate(ck, recs)
+    evaluate(ck, recs, ncorpus=ncorpus)
+    ck.obligations += 1
+    if ck.extra.get("random_universes_reaching_class_20", 0) >= 1 and ck.extra.get("random_universes_reaching_class_21", 0) >= 1:
+        ck.discharged += 1
+    else:
+        ck.fail_obligation("generator:conflict-classes", "no generated (non-corpus) universe reached the conflict classes 20 and 21 of check_uni: "
+                           "the directed conflict universes of harness/cmd/c01 are missing or no longer conflict")
     ck.obligations += 1
     if len(recs) - ncorpus >= 50 and ncorpus >= 2:
         ck.discharged += 1
